@@ -126,6 +126,9 @@ def make_data(rng, n, cont, labels="auto"):
     if cont == "ndarray":
         return np.column_stack([f, np.array(lab, dtype=float)]), cls, 2, (0, 1)
     df = pd.DataFrame({"x": f[:, 0], "z": f[:, 1], "label": lab})
+    if labels == "auto" and rng.random() < 0.3:
+        # mixed dtypes among the features: an integer column next to a float one (values, not dtypes, are what must be exchanged)
+        df["z"] = rng.integers(-5, 6, size=n).astype("int64")
     return df, cls, "label", ("x", "z")
 
 
@@ -259,6 +262,7 @@ def check_one(name, cont, data, cls, tcol, fcols, lo, hi, rng, ctx, case, inj=No
         present_all = sorted({x for x in A[:, ti]}, key=str)
         if name == "LabelProbabilityInjector":
             ks = [c for c in present_all if rng.random() < 0.7] or present_all[:1]
+            ks = [ks[int(j)] for j in rng.permutation(len(ks))]
             raw = rng.dirichlet(np.ones(len(ks))) * float(rng.choice([1.0, 1.0, 0.6]))
             if rng.random() < 0.2:
                 raw = np.zeros(len(ks))
@@ -278,7 +282,8 @@ def check_one(name, cont, data, cls, tcol, fcols, lo, hi, rng, ctx, case, inj=No
                 return False
             requested = dict(given)
         else:
-            alpha = {c: float(rng.choice([0.5, 1.0, 3.0])) for c in present_all}
+            order = [present_all[int(j)] for j in rng.permutation(len(present_all))]  # keys in arbitrary (not sorted) order
+            alpha = {c: float(rng.choice([0.5, 1.0, 3.0, 8.0])) for c in order}
             given = copy.deepcopy(alpha)
             base.update(alpha=dict(given))
             with rngtap.Tap() as tap:
